@@ -6,8 +6,11 @@ from hexlib import HexaryTrie, rlp, _nib
 from trie.exceptions import MissingTrieNode, MissingTraversalNode, TraversedPartialPath
 
 ID = "C07"
-LEAN_IMPORTS = ["PyTrie.Props.C07", "PyTrie.Props.NonVacuity3", "PyTrie.Props.FreeExec"]
+LEAN_IMPORTS = ["PyTrie.Props.C07", "PyTrie.Props.NonVacuity3", "PyTrie.Props.FreeExec", "PyTrie.Props.FreeBatch"]
 THEOREMS = [
+    "PyTrie.Props.Free.beam_invariant_step",
+    "PyTrie.Props.Free.beam_history_lockstep",
+    "PyTrie.Props.Free.beam_failed_call_atomic",
     "PyTrie.Props.C07.fetches_on_path",
     "PyTrie.Props.C07.get_missing_truthful",
     "PyTrie.Props.C07.get_error_kind",
